@@ -216,19 +216,39 @@ func (r *run) genOp(g *hlib.Rand, id int) Op {
 		op.Rcv = []int{HEndpoint, HPacket, HExecute, HAgent, HRelayer}[g.Intn(5)]
 	}
 	switch y := g.Intn(20); {
-	case y < 9:
+	case y < 8:
 		op.Cd = CdNone
-	case y < 13:
+	case y < 11:
 		op.Cd = CdOk
-	case y < 16:
+	case y < 13:
 		op.Cd = CdRevert
-	case y < 18:
+	case y < 15:
 		op.Cd = CdHookFail
-	default:
+	case y < 16:
 		op.Cd = CdOnwardUnknown
 		op.Rcv = HAgent
 		if amt.Sign() == 0 {
 			op.Cd = CdRevert
+		}
+	default:
+		// agent multi-hop: forward what this packet delivers to the agent to another chain
+		op.Cd = CdAgent
+		op.Rcv = HAgent
+		if g.Chance(1, 10) {
+			op.Rcv = g.Intn(s.NUsers)
+		}
+		op.ARef = g.Intn(s.NUsers)
+		op.ARcv = g.Intn(s.NUsers)
+		if g.Chance(1, 10) {
+			op.ARcv = -1
+		}
+		op.ADst = g.Intn(s.NChains)
+		if g.Chance(1, 12) {
+			op.ADst = s.NChains
+		}
+		op.AFee = fmt.Sprint(g.Intn(4))
+		if g.Chance(1, 10) {
+			op.AFee = new(big.Int).Add(amt, big.NewInt(int64(g.Intn(3)))).String()
 		}
 	}
 	if amt.Sign() == 0 && op.Cd == CdNone && g.Chance(3, 4) {
